@@ -1,7 +1,7 @@
 def _units(prop, tier, modes):
     t = 1 if tier == 'thorough' else 0
     units = []
-    parts = range(14)
+    parts = range(15)
     # quick: the two native cells (GCC -> intrinsic, Clang -> portable); thorough: all four cells
     cells = [('g++', 1), ('clang++', 0)] + ([('g++', 0), ('clang++', 1)] if t else [])
     for comp, path in cells:
